@@ -290,7 +290,9 @@ Fixpoint slookup (t : stable) (v m : bytes) : bytes :=
   end.
 
 Record sent := { s_params : rparams;            (* r_size = the effective .size observed *)
-                 s_req : option nat;            (* size requested from the setter; None = default MaxGramSize *)
+                 s_icode : code; s_icurt : bool; (* code and curt given to __init__ *)
+                 s_req : option nat;            (* size given to __init__; None = default MaxGramSize *)
+                 s_hist : list cfgop;           (* setter calls made before rend *)
                  s_text : bytes; s_grams : res (list bytes) }.  (* observed rend output *)
 
 Record case20 := { k_sign : stable; k_sent : list sent; k_rx : case }.
@@ -298,7 +300,11 @@ Record case20 := { k_sign : stable; k_sent : list sent; k_rx : case }.
 Definition check_sent (t : stable) (s : sent) : bool :=
   res_eqb (list_eqb bytes_eqb) (rend (slookup t) (s_params s) (s_text s)) (s_grams s)
   && match s_req s with
-     | Some q => Nat.eqb (r_size (s_params s)) (eff_size (s_params s) q)
+     | Some q =>
+       let f := cfg_run (s_icode s) (s_icurt s) q (s_hist s) in
+       Nat.eqb (r_size (s_params s)) (f_size f)
+       && Bool.eqb (r_curt (s_params s)) (f_curt f)
+       && bytes_eqb (code_text (r_code (s_params s))) (code_text (f_code f))
      | None => Nat.leb (min_size (s_params s)) (r_size (s_params s))
      end.
 
